@@ -937,31 +937,72 @@ theorem withBounds_in_data (dataLen selfStart bStart bEnd : Int) (ok : Bool) (a 
       · rename_i hc; cases h; exact ⟨hc.1, hc.2.1⟩
       · cases h
 
+/-- `StringSlice::with_bounds` (42b084b): total for real lengths, and a successful result stays
+inside the slice it was taken from (not merely inside the shared data) -/
+theorem stringWithBounds_total (dataLen selfStart selfEnd bStart bEnd : Int) (ok : Bool)
+    (hs : inLen selfStart) (he : inLen selfEnd) (hse : selfStart ≤ selfEnd) (ha : inLen bStart) (hb : inLen bEnd) :
+    stringWithBounds dataLen selfStart selfEnd bStart bEnd ok ≠ .panic := by
+  unfold stringWithBounds
+  rw [ckUsize_ok (by arith)]; simp only [bind_ok]
+  split
+  · simp
+  · exact withBounds_total dataLen selfStart bStart bEnd ok hs ha hb
+
+theorem stringWithBounds_in_slice (dataLen selfStart selfEnd bStart bEnd : Int) (ok : Bool) (a b : Int)
+    (hs : inLen selfStart) (hse : selfStart ≤ selfEnd) (he : inLen selfEnd) (hb0 : 0 ≤ bEnd)
+    (h : stringWithBounds dataLen selfStart selfEnd bStart bEnd ok = .ok (some (a, b))) :
+    a ≤ b ∧ b ≤ selfEnd := by
+  unfold stringWithBounds at h
+  rw [ckUsize_ok (by arith)] at h; simp only [bind_ok] at h
+  split at h
+  · cases h
+  · rename_i hle
+    have hin := withBounds_in_data dataLen selfStart bStart bEnd ok a b h
+    unfold withBounds at h
+    cases h1 : ckUsize (bStart + selfStart) with
+    | panic => rw [h1] at h; cases h
+    | err => rw [h1] at h; cases h
+    | ok x =>
+      rw [h1] at h; simp only [bind_ok] at h
+      cases h2 : ckUsize (bEnd + selfStart) with
+      | panic => rw [h2] at h; cases h
+      | err => rw [h2] at h; cases h
+      | ok y =>
+        rw [h2] at h; simp only [bind_ok] at h
+        unfold ckUsize at h2; split at h2
+        · cases h2
+          split at h
+          · cases h; exact ⟨hin.1, by omega⟩
+          · cases h
+        · cases h2
+
+/-- a reversed range with a huge start still overflows the addition (direct host call) -/
+theorem stringWithBounds_panic_witness : stringWithBounds 12 1 12 18446744073709551615 0 true = .panic := by decide
+
 theorem stringSliceSplit_total (dataLen selfStart offset : Int) (ok : Bool)
     (hs : inLen selfStart) (ho : inLen offset) : stringSliceSplit dataLen selfStart offset ok ≠ .panic := by
   unfold stringSliceSplit; rw [ckUsize_ok (by arith)]; simp
 
-/-- `KotoLexer::peek(n)` with `n ≥ queue_len + 2` underflows … -/
-theorem lexerPeek_panic_witness : lexerPeek 0 2 = .panic := by decide
+/-- before b5b4493 `KotoLexer::peek(n)` with `n ≥ queue_len + 2` underflowed -/
+theorem lexerPeekOld_panic_witness : lexerPeekOld 0 2 = .panic := by decide
 
-/-- … and is safe under the parser's discipline (it peeks `0, 1, 2, …` in order, so `n ≤ queue_len`
-at each of its call sites; even `n = queue_len + 1` is safe) -/
-theorem lexerPeek_total (q n : Int) (hq : inLen q) (hn : 0 ≤ n) (hg : n ≤ q + 1) : lexerPeek q n ≠ .panic := by
+/-- current code: total for every `n` below `usize::MAX`, and afterwards the queue holds the
+`n + 1` tokens that `token_queue.get(n)` needs -/
+theorem lexerPeek_total (q n : Int) (hq : inLen q) (hn : 0 ≤ n ∧ n < USIZE_MAX) :
+    ∃ add, lexerPeek q n = .ok add ∧ 0 ≤ add ∧ n + 1 ≤ q + add := by
   unfold lexerPeek
   rw [ckUsize_ok (by arith)]; simp only [bind_ok]
-  rw [ckUsize_ok (by arith)]; simp
+  exact ⟨_, rfl, by omega, by omega⟩
 
-theorem lexerPeek_panic_iff (q n : Int) (hq : inLen q) (hn : inUsize n) : lexerPeek q n = .panic ↔ q + 1 < n := by
-  unfold lexerPeek
-  rw [ckUsize_ok (by arith)]; simp only [bind_ok]
-  unfold ckUsize
+theorem lexerPeek_panic_iff (q n : Int) (hn : inUsize n) : lexerPeek q n = .panic ↔ n = USIZE_MAX := by
+  unfold lexerPeek ckUsize
   constructor
   · intro h; split at h
-    · cases h
+    · simp at h
     · arith
   · intro h
-    have : ¬ (0 ≤ q + 1 - max n q ∧ q + 1 - max n q ≤ USIZE_MAX) := by arith
-    rw [if_neg this]
+    have : ¬ (0 ≤ n + 1 ∧ n + 1 ≤ USIZE_MAX) := by arith
+    rw [if_neg this]; rfl
 
 /-! ## format_source_excerpt -/
 
